@@ -781,6 +781,10 @@ def _zero_chunk(case):
                 return True
         if sp["k"] == "K" and any(0 in c for c in sp["src"]["chunks"]):
             return True
+    if case.get("stream") == "validity":
+        from harness.props_ext import c28_validity
+
+        return c28_validity.replay(ctx, case, sig)
     return False
 
 
@@ -817,6 +821,10 @@ def _unify_skip_family(case):
                     continue
                 if tuple(other[j]) != tuple(k[j]):
                     return True
+    if case.get("stream") == "validity":
+        from harness.props_ext import c28_validity
+
+        return c28_validity.replay(ctx, case, sig)
     return False
 
 
@@ -965,7 +973,11 @@ def run_streams(ctx):
     t2 = ctx.elapsed()
     mixes(ctx)
     t3 = ctx.elapsed()
-    ctx.notes["ext.seconds"] = {"maskgrid": round(t1 - t0, 1), "chain": round(t2 - t1, 1), "mix": round(t3 - t2, 1)}
+    from harness.props_ext import c28_validity
+
+    c28_validity.run_stream(ctx)
+    t4 = ctx.elapsed()
+    ctx.notes["ext.seconds"] = {"maskgrid": round(t1 - t0, 1), "chain": round(t2 - t1, 1), "mix": round(t3 - t2, 1), "validity": round(t4 - t3, 1)}
 
 
 def replay(ctx, case, sig=None):
@@ -975,4 +987,8 @@ def replay(ctx, case, sig=None):
         if bad:
             ctx.fail(classify_mix(case, bad[0]), {"case": case, "what": bad[1], "program": describe_mix(case)}, bad[1])
         return True
+    if case.get("stream") == "validity":
+        from harness.props_ext import c28_validity
+
+        return c28_validity.replay(ctx, case, sig)
     return False
